@@ -5,7 +5,8 @@
 set -u
 ID="${1:?property id}"; MODE="${2:?quick|thorough|--replay}"
 export GOFLAGS=-mod=mod GOPROXY=off GOSUMDB=off GOTOOLCHAIN=local
-export GORACE="${GORACE:-halt_on_error=0}"
+mkdir -p /verif/evidence/race
+export GORACE="${GORACE:-halt_on_error=0 exitcode=0 log_path=/verif/evidence/race/$ID}"
 cd /verif/harness || exit 2
 mkdir -p /verif/bin /verif/evidence
 BIN="/verif/bin/vcheck-$ID-$$"
